@@ -76,11 +76,12 @@ type diBound struct {
 }
 
 type diWalk struct {
-	TS   []int      `json:"ts"`
-	Acc  []int      `json:"acc"`
-	Lo   diBound    `json:"lo"`
-	Hi   diBound    `json:"hi"`
-	Ents []ODictEnt `json:"ents"`
+	TS    []int      `json:"ts"`
+	Acc   []int      `json:"acc"`
+	Lo    diBound    `json:"lo"`
+	Hi    diBound    `json:"hi"`
+	Ents  []ODictEnt `json:"ents"`
+	Ents2 []ODictEnt `json:"ents2"`
 }
 
 type diDict struct {
@@ -151,6 +152,9 @@ func runDictIter(walksPath, dictsPath, dir, outPath string) {
 		if w.Ents == nil {
 			w.Ents = []ODictEnt{}
 		}
+		if w.Ents2 == nil {
+			w.Ents2 = []ODictEnt{}
+		}
 		groups[keyInts(w.TS)] = append(groups[keyInts(w.TS)], w)
 		nw++
 	})
@@ -190,6 +194,25 @@ func runDictIter(walksPath, dictsPath, dir, outPath string) {
 			continue
 		}
 		segs["merged2"] = s2
+		// a merge of two independently built segments with this dictionary (the empty term, if any, is
+		// then the first key of an input that is not the last one)
+		other, _, err := plugin.New(MakeDocs(d.Batch))
+		if err != nil {
+			diffs = append(diffs, diDiff{What: "setup", Got: "second build: " + err.Error()})
+			continue
+		}
+		mp := filepath.Join(dir, fmt.Sprintf("di%d-pair.zap", n))
+		os.Remove(mp)
+		if _, _, err := plugin.Merge([]segment.Segment{segs["mem"], other}, []*roaring.Bitmap{nil, nil}, mp, nil, nil); err != nil {
+			diffs = append(diffs, diDiff{What: "setup", Got: "merge pair: " + err.Error()})
+			continue
+		}
+		sp, err := plugin.Open(mp)
+		if err != nil {
+			diffs = append(diffs, diDiff{What: "setup", Got: "open merged pair: " + err.Error()})
+			continue
+		}
+		segs["pair"] = sp
 		jobs = append(jobs, job{d, groups[k], segs})
 	}
 	var mu sync.Mutex
@@ -301,8 +324,12 @@ func runDictIter(walksPath, dictsPath, dir, outPath string) {
 									break
 								}
 							}
-							if js(got) != js(w.Ents) {
-								ld = append(ld, diDiff{Walk: *w, Kind: kind, Auto: au.name, What: "entries", Got: js(got), Want: js(w.Ents)})
+							want := w.Ents
+							if kind == "pair" {
+								want = w.Ents2
+							}
+							if js(got) != js(want) {
+								ld = append(ld, diDiff{Walk: *w, Kind: kind, Auto: au.name, What: "entries", Got: js(got), Want: js(want)})
 							}
 						}()
 					}
